@@ -140,6 +140,8 @@ def run(ctx, rep):
                           '%s: %s: the returned run starts at clusters that were already given back, and extends into '
                           'clusters owned by something else' % (fn, detail))
     grant_rule(f, P, rep, 'C08.6')
+    from . import rollback
+    rollback.report(f, P, rep, 'C08.7', ('restore',))
     # C08.3
     n = 0
     for b in f.body_list:
